@@ -256,6 +256,25 @@ CHECKS["C11"] = (
     "with the encoder's own layout description); ASCII numbers use two-digit exponents; 64-bit double "
     "precision layouts follow the reader's documentation (Nastran writes mtype 1/3 there).", "3/C11")
 
+CHECKS["C06"] = (
+    "Hypothesis-generated free 3-D structures (refs/cbmodel.py: random joints, lumped masses, own Craig-Bampton "
+    "reduction) x boundary sets / orders / reference DOF / output systems / unit conversions / DOF layouts; "
+    "oracle = analytic rigid-body geometry and lumped-mass properties of the unreduced structure, own "
+    "permutation and dimensional analysis, dense solve of the documented cbtf equations; seeded faults "
+    "(grounding spring, moved grid) must show up in the quantities the report prints",
+    "Generated-input search: cbcheck's rbs/rbg/rbe are compared with analytic rigid-body vectors of the "
+    "generated structure, the 6x6 masses, cg, inertia and principal values with the lumped data, K rb with "
+    "zero, effective mass with (Phi^T M rb)^2 and its sum plus the boundary residual with the total mass; "
+    "returned m, k, uset with an own permutation and unit factors; the printed tables are parsed for the "
+    "documented checks; grounded or geometrically inconsistent models must print the corresponding "
+    "non-zero sums / FAIL. cbtf is checked against both block rows of its documented equations and an own "
+    "dense solve for any b-set order, damping form, 0 Hz and near-resonance frequencies; cgmass against the "
+    "documented 6x6; cbconvert/cbreorder as inverse pairs, against re-built models in the new units and on "
+    "recovered base-drive responses.",
+    "Elastic free-free frequencies >= 1 Hz (cbcheck's shift-invert eigensolver is centred at 1 (rad/s)^2); "
+    "n_freefree_modes >= 25; tolerances 1e-7 (geometry/mass), 1e-4 (eigensolution-based, ARPACK start vector "
+    "is random), 1e-10 (K rb) on dimensionless quantities.", "3/C06")
+
 NOT_APPLICABLE = {
 }
 
